@@ -534,3 +534,12 @@ Proof.
 Qed.
 Example unit_cube_ex : exists b, aabb_unit_cube R RO 3 true = Ret b.
 Proof. eexists. unfold aabb_unit_cube. cbv zeta. reflexivity. Qed.
+
+(* ------------------------------------------------------------------ default values of the optional parameters *)
+(* the defaults written in the `def` lines are the documented ones: norms are l2, paddings 0, unit_cube not centred *)
+Lemma defaults_documented :
+  dflt_vec_norm_which R RO = L2 /\ dflt_vec_normalized_which R RO = L2 /\ dflt_vec_normalize_which R RO = L2 /\
+  dflt_g_norm_which R RO = L2 /\ dflt_g_distance_which R RO = L2 /\ dflt_aabb_distance_which R RO = L2 /\
+  dflt_aabb_unit_cube_centered R RO = false /\
+  dflt_aabb_of_points_padding R RO = 0 /\ dflt_aabb_of_mesh_padding R RO = 0.
+Proof. repeat split; reflexivity. Qed.
